@@ -147,6 +147,7 @@ func reachableFrom(p *core.Prog, roots ...*ssa.Function) map[*ssa.Function]bool 
 	seen := map[*ssa.Function]bool{}
 	var walk func(f *ssa.Function)
 	walk = func(f *ssa.Function) {
+		f = sx.OrigFunc(f)
 		if f == nil || seen[f] {
 			return
 		}
@@ -168,8 +169,14 @@ func reachableFrom(p *core.Prog, roots ...*ssa.Function) map[*ssa.Function]bool 
 func onlyCalledFrom(p *core.Prog, f *ssa.Function, allowed map[*ssa.Function]bool) bool {
 	cm := staticCalls(p)
 	seen := map[*ssa.Function]bool{}
+	norm := map[*ssa.Function]bool{}
+	for k, v := range allowed {
+		norm[sx.OrigFunc(k)] = v
+	}
+	allowed = norm
 	var ok func(f *ssa.Function) bool
 	ok = func(f *ssa.Function) bool {
+		f = sx.OrigFunc(f)
 		if allowed[f] {
 			return true
 		}
@@ -203,7 +210,93 @@ func rootFn(f *ssa.Function) *ssa.Function {
 	for f.Parent() != nil {
 		f = f.Parent()
 	}
-	return f
+	return sx.OrigFunc(f)
+}
+
+// sameFn: a and b are the same source function (either may be an inlined view of it).
+func sameFn(a, b *ssa.Function) bool {
+	return a != nil && b != nil && sx.OrigFunc(a) == sx.OrigFunc(b)
+}
+
+// pkgViews returns a set of functions that together contain every instruction
+// of package rel in its most-inlined context: the inlined view (core.Prog.Inl)
+// of every entry point — exported functions and methods, functions without a
+// static caller in the package, go/defer targets, functions used as values —
+// and of every callee that some view still calls instead of expanding
+// (recursion, conditional defers, a recover block, size). "Who may do X" rules
+// run on these views: an operation moved into a helper is judged as part of
+// each function that calls the helper. Closures are reached through
+// sx.WithClosures(view).
+type pkgView struct {
+	Fn   *ssa.Function // the (inlined) view
+	Root *ssa.Function // the source function it is a view of
+}
+
+var viewCache = map[*core.Prog]map[string][]pkgView{}
+
+func pkgViews(p *core.Prog, rel string) []pkgView {
+	if viewCache[p] == nil {
+		viewCache[p] = map[string][]pkgView{}
+	}
+	if v, ok := viewCache[p][rel]; ok {
+		return v
+	}
+	sp := p.SPkgs[rel]
+	cm := staticCalls(p)
+	inPkg := func(f *ssa.Function) bool {
+		f = sx.OrigFunc(f)
+		return f != nil && f.Parent() == nil && f.Blocks != nil && (f.Pkg == sp || f.Pkg == nil && f.Origin() != nil && f.Origin().Pkg == sp)
+	}
+	var out []pkgView
+	have := map[*ssa.Function]bool{}
+	var work []*ssa.Function
+	add := func(f *ssa.Function) {
+		f = sx.OrigFunc(f)
+		if !inPkg(f) || have[f] {
+			return
+		}
+		have[f] = true
+		work = append(work, f)
+	}
+	for _, fn := range p.PkgFuncs(rel) {
+		if fn.Parent() != nil {
+			continue
+		}
+		exported := fn.Object() != nil && fn.Object().Exported()
+		called := false
+		for _, cs := range cm.callers[fn] {
+			if _, isCall := cs.Instr.(*ssa.Call); isCall && inPkg(rootFn(cs.Caller)) && rootFn(cs.Caller) != fn {
+				called = true
+			}
+		}
+		if exported || !called || fn.Name() == "init" || fn.Name() == "main" {
+			add(fn)
+		}
+	}
+	for len(work) > 0 {
+		f := work[0]
+		work = work[1:]
+		v := p.Inl(f)
+		out = append(out, pkgView{Fn: v, Root: f})
+		for _, g := range sx.WithClosures(v) {
+			sx.Instrs(g, func(in ssa.Instruction) {
+				if c, ok := in.(ssa.CallInstruction); ok {
+					if callee := sx.StaticCallee(c); callee != nil {
+						add(callee)
+					}
+				}
+				var buf [8]*ssa.Value
+				for _, op := range in.Operands(buf[:0]) {
+					if fv, ok := (*op).(*ssa.Function); ok && fv.Parent() == nil {
+						add(fv)
+					}
+				}
+			})
+		}
+	}
+	sort.Slice(out, func(i, j int) bool { return out[i].Root.String() < out[j].Root.String() })
+	viewCache[p][rel] = out
+	return out
 }
 
 // ---- escape / privacy analysis for pooled buffers ----
@@ -521,4 +614,31 @@ func usesUnsafeAlias(fn *ssa.Function) bool {
 		}
 	})
 	return hit
+}
+
+// viewFuncs: the functions whose code runs as part of an inlined view — the view and its closures, and the
+// inlined views of the module callees it still calls (panic-barrier frames, recursion, size limit).
+func viewFuncs(p *core.Prog, view *ssa.Function) []*ssa.Function {
+	seen := map[*ssa.Function]bool{sx.OrigFunc(view): true}
+	var out []*ssa.Function
+	var add func(v *ssa.Function)
+	add = func(v *ssa.Function) {
+		for _, f := range sx.WithClosures(v) {
+			out = append(out, f)
+			sx.Instrs(f, func(in ssa.Instruction) {
+				c, ok := in.(ssa.CallInstruction)
+				if !ok {
+					return
+				}
+				callee := sx.StaticCallee(c)
+				if callee == nil || callee.Parent() != nil || !p.InModule(callee) || callee.Blocks == nil || seen[sx.OrigFunc(callee)] {
+					return
+				}
+				seen[sx.OrigFunc(callee)] = true
+				add(p.Inl(callee))
+			})
+		}
+	}
+	add(view)
+	return out
 }
